@@ -118,13 +118,19 @@ LF("licensing_error_message", ret="c", props=["C05", "C03"],
    ensures=shape_clauses(LIC, "licensing_error_message", res="c") + [(None, "layout", "is_error_message(c.fields())"),
                                                                        ("C03", "licensing_error_message-as-documented", "c.mv() == error_message_view()")],
    post="proof { assert(c.fields() =~= error_message_view()->Comp_0); }")
+LIC_NOT_IMPL = r'Err\(Error::RdpError\(RdpError::new\(RdpErrorKind::NotImplemented, "Licensing nego not implemented"\)\)\)'
 LF("parse_payload", props=["C05", "C03"], keys=True,
+   # refusal justification (MS-RDPBCGR 2.2.1.12.1.1 bMsgType): the client implements no licence negotiation; it may refuse LICENSE_REQUEST 0x01,
+   # PLATFORM_CHALLENGE 0x02, UPGRADE_LICENSE 0x04 ... as not implemented, but never NEW_LICENSE 0x03 nor ERROR_ALERT 0xFF
+   # (the site is a match arm `_ => Err(..)`: the claim opens a block around the arm expression, on a line of its own; the last hint closes it)
+   claims=[(LIC_NOT_IMPL, 1, "{\nproof { let m = field_of(payload.fields(), \"bMsgtype\"@); assert(m is U8 ==> m->U8_0 != 0x03 && m->U8_0 != 0xFF); }", "at", "C03", "not-implemented-only-for-other-than-new-license-and-error-alert")],
    requires=["has_key(payload.fields(), \"bMsgtype\"@)", "has_key(payload.fields(), \"message\"@)"],
    ensures=[("C03", "only-new-license-or-error-alert", "r is Ok ==> (r->Ok_0 is NewLicense || r->Ok_0 is ErrorAlert)"),
             ("C03", "accepted-message-types", "r is Ok && field_of(payload.fields(), \"bMsgtype\"@) is U8 ==> field_of(payload.fields(), \"bMsgtype\"@)->U8_0 == (if r->Ok_0 is NewLicense { 0x03u8 } else { 0xFFu8 })"),
             ("C05,C03", "error-alert-layout", "r is Ok && r->Ok_0 is ErrorAlert ==> is_error_message(r->Ok_0->ErrorAlert_0.fields())")],
    hints=[(r"message\.read\(&mut stream\)\?;", 1, "let ghost m0 = message.mv();", "before"),
-          (r"message\.read\(&mut stream\)\?;", 1, "proof { lemma_error_message_kept(m0, message.mv()); }")])
+          (r"message\.read\(&mut stream\)\?;", 1, "proof { lemma_error_message_kept(m0, message.mv()); }"),
+          (LIC_NOT_IMPL, 1, "}", "atend")])
 LF("client_connect", props=["C05", "C03"], keys=True,
    ensures=[("C05", "monotone", "is_suffix(final(s).rest(), old(s).rest())")],
    hints=[(r"license_message\.read\(s\)\?;", 1, "let ghost m0 = license_message.mv();", "before"),
@@ -141,11 +147,18 @@ LF("client_connect", props=["C05", "C03"], keys=True,
                 assert(first_key(g, "dwErrorCode"@) == 0);
                 assert(first_key(g, "dwStateTransition"@) == 1);
             }""")],
+   # refusal justification (MS-RDPBCGR 2.2.1.12.1.3 / 3.2.5.3.? "licence not required" variant): an ERROR_ALERT is refused only when it is NOT
+   # STATUS_VALID_CLIENT (0x7) with ST_NO_TRANSITION (0x2)
    claims=[(r"Ok\(\(\)\)", 2, """proof {
                     assert(license_message.fields()[0] == ("bMsgtype"@, MV::U8(0xFF)));
                     assert(blob.fields()[0].0 == "dwErrorCode"@ && blob.fields()[0].1 is U32 && blob.fields()[0].1->U32_0 == 0x7);
                     assert(blob.fields()[1].0 == "dwStateTransition"@ && blob.fields()[1].1 is U32 && blob.fields()[1].1->U32_0 == 0x2);
-                }""", "before", "C03", "accepted-only-valid-client-no-transition")])
+                }""", "before", "C03", "accepted-only-valid-client-no-transition"),
+           (r"Err\(Error::RdpError\(RdpError::new\(RdpErrorKind::InvalidRespond", 0, """proof {
+                    assert(license_message.fields()[0] == ("bMsgtype"@, MV::U8(0xFF)));
+                    assert(blob.fields()[0].0 == "dwErrorCode"@ && blob.fields()[0].1 is U32 && blob.fields()[1].0 == "dwStateTransition"@ && blob.fields()[1].1 is U32);
+                    assert(blob.fields()[0].1->U32_0 != 0x7 || blob.fields()[1].1->U32_0 != 0x2);
+                }""", "before", "C03", "error-alert-refused-only-when-not-valid-client-no-transition")])
 
 # ---------------- sec.rs
 A(Item(SEC, "enum", "SecurityFlag", mod="sec", add_derive="Copy, Clone"))
